@@ -333,7 +333,19 @@ impl<M: wire::Decode> wire::Decode for Frame<M> {
             Ok(StreamKind::Gossip) => {
                 let data = varint::payload::decode(reader)?;
                 let mut cursor = io::Cursor::new(data);
-                let msg = M::decode(&mut cursor)?;
+                let msg = M::decode(&mut cursor).map_err(|err| {
+                    // N.b. the frame is complete, so running out of bytes inside of it means the
+                    // message is invalid; it must not be reported as an incomplete frame, or the
+                    // stream would wait forever for bytes that belong to the next frame.
+                    if err.is_eof() {
+                        wire::Error::Io(io::Error::new(
+                            io::ErrorKind::InvalidData,
+                            "message is shorter than its frame",
+                        ))
+                    } else {
+                        err
+                    }
+                })?;
                 let frame = Frame {
                     version,
                     stream,
